@@ -178,6 +178,21 @@ def step (st : St) (tok : List String) (_line : String) (impl : Option String) :
   | ["tick", who] =>
     if who == "a" then finish st { st.sys with a := st.sys.a.tick hmac st.now } st.now "" .a impl none
     else if who == "b" then finish st { st.sys with b := st.sys.b.tick hmac st.now } st.now "" .b impl none
+    else if who == "ab" then
+      -- both ends tick at one clock reading; only the state after both is an observation
+      let sys := (st.sys.step hmac (.tickA st.now)).step hmac (.tickB st.now)
+      let r := finish { st with prev := st.prev } sys st.now "" .both impl none
+      -- `.both` waives the due-check; redo it here for each end
+      match impl.bind (fun l => parseSeen (tokens l)) with
+      | some o =>
+        let early (changed : Bool) (last : Option Int) (iv : Int) : Bool :=
+          changed && (match last with | some l => decide (st.now - l < iv) | none => false)
+        if r.2.2 == "ok" || r.2.2.startsWith "viol:rotation-unequal-keys" then
+          if early (st.havePrev && st.prev.kA != o.kA) st.prev.lA st.ivA then (r.1, r.2.1, "viol:rotation-not-due:A")
+          else if early (st.havePrev && st.prev.kB != o.kB) st.prev.lB st.ivB then (r.1, r.2.1, "viol:rotation-not-due:B")
+          else r
+        else r
+      | none => r
     else (st, "bad-op", "ok")
   | ["rot", who] =>
     if who == "a" then
